@@ -104,6 +104,9 @@ func Start(prop, level string) *Run {
 	if sh := os.Getenv("VERIF_SHARD"); sh != "" {
 		if i := strings.Index(sh, "/"); i > 0 {
 			if n, err := strconv.Atoi(sh[i+1:]); err == nil && n > 0 {
+				if c, err := strconv.Atoi(os.Getenv("VERIF_SHARD_CONC")); err == nil && c > 0 {
+					n = c
+				}
 				limit = (int64(32) << 30) / int64(n)
 				if limit < 1<<30 {
 					limit = 1 << 30
@@ -501,13 +504,24 @@ func (r *Run) RunShards(n, procs int) {
 		out []byte
 	}
 	ch := make(chan res, n)
+	// n may exceed the number of cores (finer units balance better): at most Workers()/procs shards run at a time
+	conc := Workers() / procs
+	if conc < 1 {
+		conc = 1
+	}
+	if conc > n {
+		conc = n
+	}
+	sem := make(chan struct{}, conc)
 	for i := 0; i < n; i++ {
 		go func(i int) {
+			sem <- struct{}{}
+			defer func() { <-sem }()
 			cmd := exec.Command(os.Args[0], os.Args[1:]...)
 			cmd.SysProcAttr = &syscall.SysProcAttr{Pdeathsig: syscall.SIGKILL}
 			cmd.Env = append(os.Environ(), fmt.Sprintf("VERIF_SHARD=%d/%d", i, n),
 				fmt.Sprintf("VERIF_SHARD_OUT=%s/shard-%s-%d.json", dir, r.Prop, i), fmt.Sprintf("GOMAXPROCS=%d", procs),
-				fmt.Sprintf("VERIF_WORKERS=%d", procs), fmt.Sprintf("VERIF_SCRATCH=%s/shard%d", dir, i))
+				fmt.Sprintf("VERIF_WORKERS=%d", procs), fmt.Sprintf("VERIF_SCRATCH=%s/shard%d", dir, i), fmt.Sprintf("VERIF_SHARD_CONC=%d", conc))
 			os.MkdirAll(fmt.Sprintf("%s/shard%d", dir, i), 0o755)
 			out, err := cmd.CombinedOutput()
 			ch <- res{i, err, out}
